@@ -48,6 +48,9 @@ type DeclInfo struct {
 
 // Load type-checks every package of the module rooted at dir from source
 // (dependencies come from export data). Any load or type error is returned.
+// Current is the program loaded last (used by helpers that need declarations of callees).
+var Current *Prog
+
 func Load(dir, goarch string, extraEnv ...string) (*Prog, error) {
 	env := os.Environ()
 	env = append(env, "GOFLAGS=-mod=mod", "GOPROXY=off", "GOWORK=off")
@@ -115,6 +118,7 @@ func Load(dir, goarch string, extraEnv ...string) (*Prog, error) {
 			}
 		}
 	}
+	Current = p
 	return p, nil
 }
 
